@@ -84,28 +84,45 @@ def run(chk, facts):
     for tok, want in NO_WIDTH.items():
         sp = lm.spelling(tok)
         chk.ob("R-C18-1", f"display:{tok}", sp == want, f"{tok} has no width" if sp == want else f"{tok} prints `{sp}`: a token that is not in the text has a width", loc)
-    # lexeme building: in the identifier and number loops every `it.next()` is paired with a push of that char
+    # lexeme building: in the identifier and number loops, on every path through the loop body, each `it.next()` is paired with a
+    # push of that char (decided per syntactic path, so merged or split arms, `if` inside an arm etc. do not matter)
+    from .common import fn_paths
     for label, arm in lm.complex_arms.items():
         body_s = src(arm["body"]).replace(" ", "")
-        # a look-ahead on a *clone* of the iterator does not consume
-        clone_blocks = [n for n in walk(arm["body"]) if n.get("k") == "block" and any(
-            st.get("k") == "local" and src(st.get("init")).replace(" ", "") == "it.clone()" and
-            [m["name"] for m in walk(st["pat"]) if m.get("k") == "pident"] == ["it"] for st in n["stmts"])]   # only when the clone shadows `it`
-        in_clone = set()
-        for cb in clone_blocks:
-            for n in walk(cb):
-                in_clone.add(id(n))
-        nexts = sum(1 for n in walk(arm["body"]) if n.get("k") == "mcall" and n["m"] == "next" and src(strip(n["recv"])) == "it" and id(n) not in in_clone)
-        pushes = sum(1 for n in walk(arm["body"]) if n.get("k") == "mcall" and n["m"] == "push" and src(strip(n["args"][0])).lstrip("*") == "c")
-        if "id_or_operation" in body_s:
-            ok = nexts == pushes and nexts >= 1
-            chk.ob("R-C18-1", "lexeme:identifier", ok, "identifier loop: every consumed char is pushed into the lexeme" if ok else
-                   f"identifier loop: {nexts} it.next() vs {pushes} push(c): consumed characters are missing from (or extra in) the lexeme, so the width is wrong", loc)
-        if "e_num" in body_s:
-            # one it.next() (the `E`) is not pushed: Display re-adds it
-            ok = nexts == pushes + 1
-            chk.ob("R-C18-1", "lexeme:number", ok, "number loop: every consumed char is pushed, except the `E` that Display re-adds" if ok else
-                   f"number loop: {nexts} it.next() vs {pushes} push(c) (+1 for `E`): the printed number is not what was consumed", loc)
+        if "id_or_operation" not in body_s and "e_num" not in body_s:
+            continue
+        which = "identifier" if "id_or_operation" in body_s and "e_num" not in body_s else "number"
+        loops = [n for n in walk(arm["body"]) if n.get("k") in ("while", "loop", "for")]
+        if not loops:
+            chk.ob("R-C18-1", f"lexeme:{which}", False, f"{which} arm: no loop found", loc)
+            continue
+        bad = None
+        n_paths = 0
+        n_unpushed = 0
+        for lp in loops[:1]:
+            try:
+                from .common import rename_shadowing_clones
+                paths = fn_paths(rename_shadowing_clones(lp["body"], "it"))   # a look-ahead on `let mut it = it.clone()` does not consume
+            except AnchorError as e:
+                chk.anchor_fail("R-C18-1", e)
+                continue
+            for p in paths:
+                n_paths += 1
+                nexts = sum(1 for ev in p.events if ev.get("k") == "mcall" and ev["m"] == "next" and src(strip(ev["recv"])) == "it")
+                pushes = sum(1 for ev in p.events if ev.get("k") == "mcall" and ev["m"] == "push" and ev["args"] and src(strip(ev["args"][0])).lstrip("*") == "c")
+                # a look-ahead on a clone that shadows `it` (`let mut it = it.clone(); it.next();`) does not consume: those calls sit
+                # in a block with that `let`; fn_paths works on inlined lets, where the receiver is `it.clone()` then - not `it`
+                if nexts == pushes:
+                    continue
+                if which == "number" and nexts == pushes + 1 and any(c.endswith("'E'") or "~'E'" in c for c, pol in p.conds if pol):
+                    n_unpushed += 1     # the `E` itself: consumed, not pushed; Display prints it between mantissa and exponent
+                    continue
+                bad = bad or (nexts, pushes, [c for c, pol in p.conds if pol][-2:])
+        ok = bad is None and n_paths > 0 and (which != "number" or n_unpushed == 1)
+        chk.ob("R-C18-1", f"lexeme:{which}", ok,
+               f"{which} loop: on each of {n_paths} paths every consumed char is pushed into the lexeme" + (" (except the `E`, which Display re-adds)" if which == "number" else "") if ok else
+               (f"{which} loop: a path ({bad[2]}) consumes {bad[0]} char(s) but pushes {bad[1]}: the printed token is not what was consumed, so every later column is shifted" if bad else
+                f"{which} loop: {n_paths} paths, {n_unpushed} unpushed `E` paths"), loc)
 
     # ---------------- R-C18-2 ----------------
     try:
@@ -117,19 +134,56 @@ def run(chk, facts):
         s_ = src(st["body"]).replace(" ", "")
         s_inl = src(inline_lets(st["body"])).replace(" ", "")   # named intermediates are inlined (wrapped in parentheses)
         ok1 = re.search(r"self\.pos=self\.pos\.offset_pos\(\(*token(\.clone\(\))?\.width\(\)\)*\)", s_inl) is not None
-        n_sat = s_.count(".lines().count().saturating_sub(1)")
-        ok2 = n_sat == 2 and "asi32" not in s_.split("self.cur_indent=self.line_indent")[-1]
+        # lines: on every path on which the token is a Str / DocStr the caret moves down by lines().count().saturating_sub(1) of
+        # its text; on no other path does it move down (decided per path: if-let chain, or-pattern match .. alike)
+        from .common import fn_paths
+        LINES = re.compile(r"^self\.pos=self\.pos\.offset_line\(\(*(\w+)\.lines\(\)\.count\(\)\.saturating_sub\(1\)\)*\)$")
+        seen_v, bad_line = set(), None
+        for p_ in fn_paths(st["body"]):
+            vs = set()
+            for c_, pol in p_.conds:
+                if pol:
+                    vs |= set(re.findall(r"Token::(Str|DocStr)\(", c_))
+            moves = []
+            for ev in p_.events:
+                t_ = src(ev).replace(" ", "")
+                while t_.startswith("(") and t_.endswith(")"):
+                    t_ = t_[1:-1]
+                if t_.startswith("self.pos=") and "offset_line" in t_:
+                    moves.append(t_)
+            if vs:
+                seen_v |= vs
+                if len(moves) != 1 or not LINES.match(moves[0]):
+                    bad_line = bad_line or f"token {sorted(vs)}: line moves {moves}"
+            elif moves:
+                bad_line = bad_line or f"a token that is not a string moves the line: {moves}"
+        n_sat = len(seen_v)
+        ok2 = seen_v == {"Str", "DocStr"} and bad_line is None
         chk.ob("R-C18-2", "State::token:advance", ok1, "State::token advances the caret by token.width()" if ok1 else "State::token no longer advances the caret by token.width()", facts.loc_of(st))
         chk.ob("R-C18-2", "State::token:lines", ok2, "State::token advances lines by lines().count().saturating_sub(1) for Str and DocStr" if ok2 else
-               f"State::token line advance changed ({n_sat} saturating_sub sites): an empty or multi-line string moves later line numbers", facts.loc_of(st))
+               f"State::token line advance changed ({bad_line or sorted(seen_v)}): an empty or multi-line string moves later line numbers", facts.loc_of(st))
         # the token is pushed with the position *before* the advance
         i_push = s_.find("res.push(Lex::new(self.pos,token.clone()))")
         i_adv = s_.find("self.pos=self.pos.offset_pos(")
         ok3 = 0 <= i_push < i_adv
         chk.ob("R-C18-2", "State::token:start-before-advance", ok3, "the token is recorded at the caret before it advances" if ok3 else "the token is no longer recorded at the caret position before the advance", facts.loc_of(st))
         ln = syn.one_fn("new", impl_of="Lex")
-        l_ = src(ln["body"]).replace(" ", "")
-        ok = l_.count("start.offset_line(_str.lines().count().saturating_sub(1))") == 2 and "letend=end.offset_pos(token.clone().width())" in l_ and "Position{start:start,end:end}" in l_
+        from . import symeval
+        se = symeval.SymEval(syn, "parse::lex")
+        lv = se.ev(ln["body"], {"start": ("var", "start"), "token": ("var", "token")})
+        ok = False
+        why_l = symeval.show(lv)[:120]
+        if lv[0] == "core" and lv[1] in ("Lex", "Self"):
+            posv = lv[2].get("pos")
+            if posv and posv[0] == "core" and posv[1] == "Position" and posv[2].get("start") == ("var", "start"):
+                endv = posv[2].get("end")
+                # end = <line start>.offset_pos(token.width())
+                if endv and endv[0] == "mcall" and endv[2] == "offset_pos" and endv[3] == [("mcall", ("var", "token"), "width", [])]:
+                    ch = symeval.variant_choice(endv[1], "Token")
+                    want = symeval.strip_text_var(("mcall", ("var", "start"), "offset_line", [("mcall", ("mcall", ("mcall", ("var", "x"), "lines", []), "count", []), "saturating_sub", [("int", "1")])]))
+                    if ch is not None and set(ch) == {"Str", "DocStr", "_"} and ch["_"] == ("var", "start") and \
+                            symeval.strip_text_var(ch["Str"]) == want and symeval.strip_text_var(ch["DocStr"]) == want:
+                        ok = True
         chk.ob("R-C18-2", "Lex::new:end=start+width", ok, "Lex::new: end = start + (lines-1, width)" if ok else "Lex::new no longer computes end = start.offset_line(lines-1).offset_pos(width)", facts.loc_of(ln))
         nl = syn.one_fn("newline", impl_of="State")
         n_ = src(nl["body"]).replace(" ", "")
@@ -139,7 +193,9 @@ def run(chk, facts):
         ok = "self.pos=self.pos.offset_pos(1)" in src(sp["body"]).replace(" ", "")
         chk.ob("R-C18-2", "State::space", ok, "a space advances the caret by one column" if ok else "State::space no longer advances by one column", facts.loc_of(sp))
         op = syn.one_fn("offset_pos", impl_of="CaretPos")
-        ok = "pos: (self.pos + offset)" in src(op["body"]) or "pos:self.pos+offset" in src(op["body"]).replace(" ", "").replace("(", "").replace(")", "")
+        ov = se.ev(op["body"], {"self": ("var", "self"), "offset": ("var", "offset")})
+        ok = ov[0] == "core" and ov[1] in ("CaretPos", "Self") and ov[2].get("pos") == ("bin", "+", ("var", "self.pos"), ("var", "offset")) and \
+            (ov[2].get("line") == ("var", "self.line") or (ov[2].get("..") == ("var", "self") and "line" not in ov[2]))
         chk.ob("R-C18-2", "CaretPos::offset_pos", ok, "offset_pos adds the offset to the column" if ok else "CaretPos::offset_pos changed", facts.loc_of(op))
     except AnchorError as e:
         chk.anchor_fail("R-C18-2", e)
